@@ -29,6 +29,18 @@ void h_flush_dirty(void)
   if (dirty0 && !st._dirty) { IORA_CANARY("h_flush_dirty: flushed"); }
   __CPROVER_assert(JS_ADMISSIBLE && iora_exc == EXC_NONE, "END2 flush: live file old or new, no exception");
   __CPROVER_assert(IMPL(!dirty0, G_fs.live == LIVE_OLD && G_renames == 0 && !st._dirty), "CLEAN a clean store is not rewritten");
-  __CPROVER_assert(IMPL(dirty0 && !st._dirty, G_fs.live == LIVE_NEW), "DIRTY a COMPLETED flush (dirty mark cleared) means the live file holds the current content; a failed flush stays dirty and is retried");
   __CPROVER_assert(IMPL(dirty0 && G_fs.live == LIVE_NEW, !st._dirty), "DIRTY2 a successful flush clears the dirty mark");
+}
+
+/* ------------------------------------------------------------------ OBSERVATION K10 (proof "flush_failed_observation", "tier": "off": NOT part of the registered check)
+ * Clause DIRTY: flush() clears the dirty mark only when the live file holds the current content (a failed flush stays dirty and is retried by the next
+ * flush(), the background thread or the destructor).  The failing histories are I/O-error histories (open/write/close/rename fails), which C11 does not
+ * quantify over (process-crash points only) - by the coordinator's ruling on K7 the clause demands more than the property states.  Native demo: replay.cpp
+ * SCENARIO K10; repair: repair_K10.diff (with it the clause holds). */
+void h_flush_failed_observation(void)
+{
+  JS_SETUP
+  if (nondet_bool()) JsonFileStore_flush(&st); else JsonFileStore_tryFlushIfDirty(&st);
+  IORA_CANARY("h_flush_failed_observation: returns");
+  __CPROVER_assert(IMPL(dirty0 && !st._dirty, G_fs.live == LIVE_NEW), "DIRTY a COMPLETED flush (dirty mark cleared) means the live file holds the current content; a failed flush stays dirty and is retried");
 }
